@@ -1010,7 +1010,8 @@ def solve(objfun, x0, h=None, lh=None, prox_uh=None, argsf=(), argsh=(), argspro
         ('growing.full_rank.use_full_rank_interp' in user_params or 'growing.perturb_trust_region_step' in user_params)
 
     scaling_changes = None
-    if scaling_within_bounds:
+    if scaling_within_bounds and np.shape(xl) == np.shape(x0) and np.shape(xu) == np.shape(x0) and np.all(xu - xl > 0.0):
+        # (bounds of the wrong shape or with an empty/zero-width box are reported as input errors below, not scaled)
         shift = xl.copy()
         scale = xu - xl
         scaling_changes = (shift, scale, xl.copy(), xu.copy())  # original bounds kept to undo the scaling exactly
